@@ -211,6 +211,7 @@ type instance struct {
 	depth  int
 	wide   int                 // k > 0: the k-th wire-boundary instance of its type (fill.go: byte-counted lists at the boundaries of their count byte)
 	min    *minPlan            // not nil: every element has its minimal encoding, the plan says how many elements each section holds (gen "minimal")
+	light  bool                // no long text / wide table (gen "life": every probe replays the life of the object)
 	replay func(p interface{}) // not nil: what happened to the object after it was populated (earlier writes, mutations): a rebuilt copy lives through the same
 }
 
@@ -218,8 +219,8 @@ type instance struct {
 func (it *instance) build() interface{} {
 	r := rand.New(rand.NewSource(it.seed))
 	p := it.pt.mk()
-	g := &filler{r: r, nonil: it.nonil, wide: it.wide, min: it.min}
-	if r.Intn(24) == 0 && it.min == nil {
+	g := &filler{r: r, nonil: it.nonil, wide: it.wide, min: it.min, light: it.light}
+	if r.Intn(24) == 0 && it.min == nil && !it.light {
 		g.big = 1
 	}
 	g.populate(p, it.depth)
